@@ -2,6 +2,7 @@
 package main
 
 import (
+	"errors"
 	"bytes"
 	"fmt"
 	"os"
@@ -301,11 +302,11 @@ func scenario(c conf, bound int) schk.Scenario {
 					}
 				}
 			case "UnsubUnknown":
-				if len(r.errs) != 1 || r.errs[0] != chans.ErrAlreadyUnsubscribed {
+				if len(r.errs) != 1 || !errors.Is(r.errs[0], chans.ErrAlreadyUnsubscribed) {
 					return schk.Failf("unsub-error", "Unsub(unknown channel) returned %v", r.errs), ""
 				}
 			case "UnsubNil":
-				if len(r.errs) != 1 || r.errs[0] != chans.ErrSubscriptionNotInitalized {
+				if len(r.errs) != 1 || !errors.Is(r.errs[0], chans.ErrSubscriptionNotInitalized) {
 					return schk.Failf("unsub-error", "Unsub(nil) returned %v", r.errs), ""
 				}
 			case "WithOnly0":
@@ -589,7 +590,7 @@ func sequentialFamily(r *ev.Run) int {
 				if subs[i].live && err != nil {
 					fail("n=%d: Unsub of a live subscription returned %v", n, err)
 				}
-				if !subs[i].live && err != chans.ErrAlreadyUnsubscribed {
+				if !subs[i].live && !errors.Is(err, chans.ErrAlreadyUnsubscribed) {
 					fail("n=%d: Unsub of a subscription that was already removed returned %v, want ErrAlreadyUnsubscribed", n, err)
 				}
 				subs[i].live = false
